@@ -70,6 +70,11 @@ Definition entry (sub : Z) (args : list Z) : list Z :=
                       else if sub =? 1 then match sfifo_case c ops with Some l => 1 :: enc_out l | None => [PANIC] end else [BADCASE]
         | None => [BADCASE]
         end
+      else if k =? 3 then
+        (* capacity only: NewSync[struct{}](c).Cap() — no slots are materialised, so c may be large.
+           sub 0 = the capacity Init computes (init_cap: the translated round-up loop), sub 1 = the smallest power of two >= max 2 c *)
+        if sub =? 0 then match init_cap c with None => [PANIC] | Some None => [NOFUEL] | Some (Some k') => [k'] end
+        else if sub =? 1 then (if c <=? 0 then [PANIC] else [spec_cap c]) else [BADCASE]
       else [BADCASE]
   | _ => [BADCASE]
   end.
